@@ -308,6 +308,7 @@ pub struct Outcome {
     pub peer_done_at: Option<u64>,
     pub input_len: usize,
     pub max_queued: i64,
+    pub send_log: Vec<(u64, usize, usize)>,
 }
 
 impl Outcome {
@@ -481,6 +482,15 @@ struct EchoBody {
     log: Rc<RefCell<Log>>,
     idx: usize,
     peer: Peer,
+}
+
+impl Drop for EchoBody {
+    fn drop(&mut self) {
+        let now = self.peer.now_ms();
+        if let Ok(mut l) = self.log.try_borrow_mut() {
+            l.resps[self.idx].dropped_at = Some(now);
+        }
+    }
 }
 
 impl MessageBody for EchoBody {
@@ -812,6 +822,8 @@ pub struct Scenario {
     /// head length per request index (for in-flight accounting); may be empty
     pub head_lens: Vec<usize>,
     pub keep_taken_log: bool,
+    /// request methods (HEAD or not) for closed-loop `WaitResps` steps of the peer
+    pub is_head: Vec<bool>,
 }
 
 impl Scenario {
@@ -825,6 +837,7 @@ impl Scenario {
             deadline_ms: 3_600_000,
             head_lens: vec![],
             keep_taken_log: false,
+            is_head: vec![],
         }
     }
 }
@@ -876,6 +889,7 @@ async fn run_inner(sc: Scenario) -> Outcome {
         deadline_ms,
         head_lens,
         keep_taken_log,
+        is_head,
     } = sc;
     let (io, peer) = simnet::pair();
     peer.0.borrow_mut().keep_taken_log = keep_taken_log;
@@ -975,7 +989,7 @@ async fn run_inner(sc: Scenario) -> Outcome {
     let ppeer = peer.clone();
     let input = Bytes::from(input);
     let peer_task = tokio::task::spawn_local(async move {
-        simnet::run_peer(ppeer.clone(), input, peer_ops).await;
+        simnet::run_peer(ppeer.clone(), input, peer_ops, is_head).await;
         *pd.borrow_mut() = Some(ppeer.now_ms());
     });
     let wtask = tokio::task::spawn_local(simnet::run_wscript(peer.clone(), w_ops));
@@ -1038,6 +1052,7 @@ async fn run_inner(sc: Scenario) -> Outcome {
         peer_done_at: pd,
         input_len,
         max_queued: 0,
+        send_log: s.send_log.clone(),
     }
 }
 
